@@ -190,4 +190,20 @@ PROPS = {
             "optimality is checked per case against the Gotoh oracle (whose own optimality is a kept statement, not proved)",
         ],
     },
+    "C03": {
+        "harness": [{"cmd": "c03", "n": {"quick": 2500, "thorough": 60000}}],
+        "rule": "15 minimised inputs that used to hang / crash / be accepted, then valid files written by the real writers "
+                "(FASTA, Phylip relaxed/strict/one-line/no-block/multi, Nexus, Clustal, Stockholm, partition; lengths "
+                "straddling the line widths) mutated by truncation at a random offset, single-byte mutation over "
+                "delimiter bytes, line deletion / duplication, token splices (keywords, brackets, CR, NUL, huge and "
+                "negative numbers), header-count lies, occasionally twice and with a non-ASCII character, under every "
+                "duplicate-name policy and forced alphabets; every call runs in a child process under a 3 s watchdog; "
+                "non-trivial = input of at least 4 bytes; distinct = distinct (format, options, input)",
+        "nontrivial": lambda m: len(m.get("input", "")) >= 4,
+        "assumptions": [
+            "only the FASTA lexer/parser is modelled (ASCII inputs; the lexers decode runes); the other parsers are "
+            "judged by the spec oracle on generated inputs only (bounded)",
+            "a hang is what the 3 s watchdog sees; os.Exit is recognised from the child's exit status and banner",
+        ],
+    },
 }
